@@ -200,6 +200,69 @@ func c19pool(r *mon.Rand, kind refcose.Kind, n int) []c19input {
 			u.Kids = append(kids, refcbor.NInt(11), refcbor.NArr(refcbor.NBstr([]byte{}), refcbor.NMap(), refcbor.NBstr([]byte{})))
 			return true
 		})
+		// structurally fine, semantically odd: values a stricter decoder might one day refuse (a typ naming
+		// another COSE structure, a certificate thumbprint that does not match the chain next to it, an
+		// expired CWT, a content type with parameters). Whichever way a decoder decides about them, it
+		// decides before it touches the destination.
+		stripL := func(x *Node, labels ...int64) {
+			var kids []*Node
+			for i := 0; i+1 < len(x.Kids); i += 2 {
+				drop := false
+				if v, ok := x.Kids[i].Int64(); ok {
+					for _, l := range labels {
+						drop = drop || v == l
+					}
+				}
+				if !drop {
+					kids = append(kids, x.Kids[i], x.Kids[i+1])
+				}
+			}
+			x.Kids = kids
+		}
+		for oi, odd := range []struct {
+			name   string
+			prot   bool
+			labels []int64
+			kids   []*Node
+		}{
+			{"typ-names-cose-sign", true, []int64{16}, []*Node{refcbor.NInt(16), refcbor.NTstr(`application/cose; cose-type="cose-sign"`)}},
+			{"typ-names-cose-sign1", true, []int64{16}, []*Node{refcbor.NInt(16), refcbor.NTstr(`application/cose; cose-type="cose-sign1"`)}},
+			{"typ-names-cose-mac", false, []int64{16}, []*Node{refcbor.NInt(16), refcbor.NTstr(`application/cose; cose-type="cose-mac0"`)}},
+			{"typ-coap-cose-sign", true, []int64{16}, []*Node{refcbor.NInt(16), refcbor.NInt(98)}},
+			{"content-type-cose-sign", true, []int64{3}, []*Node{refcbor.NInt(3), refcbor.NTstr(`application/cose; cose-type="cose-sign"`)}},
+			{"x5t-not-matching-x5chain", false, []int64{33, 34}, []*Node{refcbor.NInt(34), refcbor.NArr(refcbor.NInt(-16), refcbor.NBstr(make([]byte, 32))), refcbor.NInt(33), refcbor.NBstr([]byte("0\x82\x01\x0a not a certificate"))}},
+			{"x5t-not-matching-x5chain-protected", true, []int64{33, 34}, []*Node{refcbor.NInt(34), refcbor.NArr(refcbor.NInt(-16), refcbor.NBstr(make([]byte, 32))), refcbor.NInt(33), refcbor.NArr(refcbor.NBstr([]byte("cert-1")), refcbor.NBstr([]byte("cert-2")))}},
+			{"x5t-truncated-hash", false, []int64{33, 34}, []*Node{refcbor.NInt(34), refcbor.NArr(refcbor.NInt(-15), refcbor.NBstr(make([]byte, 8))), refcbor.NInt(33), refcbor.NBstr([]byte("cert"))}},
+			{"x5u-not-https", false, []int64{35}, []*Node{refcbor.NInt(35), refcbor.NTstr("http://example.com/cert")}},
+			{"cwt-expired", true, []int64{15}, []*Node{refcbor.NInt(15), refcbor.NMap(refcbor.NInt(4), refcbor.NInt(1), refcbor.NInt(5), refcbor.NInt(2))}},
+			{"kid-empty", false, []int64{4}, []*Node{refcbor.NInt(4), refcbor.NBstr([]byte{})}},
+			{"alg-of-another-family", false, []int64{1}, []*Node{refcbor.NInt(1), refcbor.NInt(5)}},
+		} {
+			odd := odd
+			if (vi+oi)%3 != 0 {
+				continue
+			}
+			add("odd:"+odd.name, func(t *gen.Tree, body *Node) bool {
+				layer := body
+				if kind == refcose.KSignTagged && oi%2 == 1 && len(body.Kids) == 4 && len(body.Kids[3].Kids) > 0 {
+					layer = body.Kids[3].Kids[len(body.Kids[3].Kids)-1] // the last signer instead of the body
+				}
+				m := t.Emb[layer.Kids[0]]
+				u := layer.Kids[1]
+				if odd.prot && m != nil {
+					stripL(m, odd.labels...)
+					stripL(u, odd.labels...)
+					m.Kids = append(m.Kids, odd.kids...)
+					return true
+				}
+				stripL(u, odd.labels...)
+				if m != nil {
+					stripL(m, odd.labels...)
+				}
+				u.Kids = append(u.Kids, odd.kids...)
+				return true
+			})
+		}
 		add("payload-type", func(t *gen.Tree, body *Node) bool {
 			if len(body.Kids) != 4 {
 				return false
